@@ -1,11 +1,14 @@
 SPECIFICATION Spec
 CONSTANTS
-  MaxOps = 4
+  MaxOps = 7
   Deviations <- NoDev
   JunkBytes <- MCJunk
   RegistryOps = FALSE
-  Receivers = FALSE
-  OpSet <- AllOps
+  Receivers = TRUE
+  OpSet <- RcvOps
 CHECK_DEADLOCK FALSE
 
 INVARIANT Export
+INVARIANT FramesRight
+INVARIANT HeadDecodes
+INVARIANT ReceiverIndependent
